@@ -177,6 +177,7 @@ def _cli_case(case):
     os.makedirs(d, exist_ok=True)
     try:
         mode = case["mode"]
+        decorated = False
         cfgpaths = [vsgapi.write_config_file(x) for x in dicts]
         if mode == "fix_clean":
             a, oConfig = vsgapi.make_config(style, dicts)
@@ -196,6 +197,21 @@ def _cli_case(case):
                 lines = f.get_lines()[1:]
             if not clean:
                 return {"status": "skip", "why": "not violation-free after 3 fix passes (C09/C10 territory)"}
+            # decorate: things a --fix run normalises in memory (trailing blanks, runs of blank lines) that are
+            # only "violations" when the corresponding rule is enabled; keep the decoration if the file is still clean
+            rng = random.Random(harness.stable_hash("c04deco", json.dumps(case, sort_keys=True)))
+            deco = list(lines)
+            for _ in range(3):
+                i = rng.randrange(len(deco))
+                deco[i] = deco[i] + rng.choice(["  ", " ", "\t"])
+            try:
+                f, r = vsgapi.build(deco, a, oConfig)
+                r.check_rules(bAllPhases=True)
+                if not _fixable_error_violations(r):
+                    lines = deco
+                    decorated = True
+            except Exception:
+                pass
             text = "\n".join(lines)
         target = os.path.join(d, "t.vhd")
         with open(target, "w", encoding="utf-8") as fh:
@@ -216,7 +232,7 @@ def _cli_case(case):
             args += ["-ap"]
         rc, so, se = vsgapi.run_cli(args, cwd=d, launcher=os.path.join(vsgapi.VERIF, "lib", "vsg_launch.py"), env_extra={"VSG_VERIF_AUDIT": audit})
         after = _stat(target)
-        res = {"rc": rc, "mode": mode}
+        res = {"rc": rc, "mode": mode, "decorated": decorated}
         if "Traceback" in se:
             res["traceback"] = se[-800:]
         diffs = {k: (before[k], after[k]) for k in before if before[k] != after[k]}
@@ -267,7 +283,7 @@ def _cases(tier, seed):
         cases.append({"k": "parse", "file": f, "enc": rng.choice(["crlf", "latin1", "nbsp_ff", "bom"])})
     # (c)
     ncli = 48 if tier == "quick" else 480
-    pool = ["none", "jcl", "indent_only", "tabs4", "upper"]
+    pool = ["none", "jcl", "indent_only", "tabs4", "upper", "ws_rules_off", "ws_rules_off", "rand_disabled", "rand_warning", "ws_rules_warning"]
     for f in harness.sample(rng, corpus, ncli):
         mode = rng.choice(["fix_clean", "fix_clean", "nofix", "nofix_ap"])
         cases.append({"k": "cli", "file": f, "cfg": rng.choice(pool), "mode": mode, "chmod": rng.choice([0o644, 0o600, 0o664])})
